@@ -4,6 +4,7 @@ import (
 	"encoding/json"
 	"fmt"
 	"math"
+	"strings"
 
 	"xv/run"
 )
@@ -47,7 +48,7 @@ func C06(c *run.Check) {
 		bin = append(bin, mustParse([]string{"$a " + op + " $b"})...)
 	}
 	un := mustParse([]string{"-$a", "floor($a)", "ceiling($a)", "round($a)", "--$a", "number($a)", "$a + 0", "0 - $a"})
-	c.Rule = fmt.Sprintf("%d boundary doubles (+-0, +-0.5, ties, 0.49999999999999994, 2^31, 2^53+-1, 2^63, 2^64, 1e21, max, min subnormal, NaN, +-Inf): ALL ordered pairs x {+,-,*,div,mod} and all values x {unary -, floor, ceiling, round} with operands as Number variables and as literals where expressible; sum()/count() over every node-set of size <=3 from a 10-text alphabet (fractions, negatives, padded, non-numeric); results compared by bit pattern (NaN==NaN; sign of zero ignored for round) with Go float64 / math.Mod; non-trivial = distinct (operation, result)", len(c06Numbers))
+	c.Rule = fmt.Sprintf("%d boundary doubles (+-0, +-0.5, ties, 0.49999999999999994, 2^31, 2^53+-1, 2^63, 2^64, 1e21, max, min subnormal, NaN, +-Inf): ALL ordered pairs x {+,-,*,div,mod} and all values x {unary -, floor, ceiling, round} with operands as Number variables and as literals where expressible; sum()/count() over every node-set of size <=3 from a 10-text alphabet (fractions, negatives, padded, non-numeric); every arithmetic operator and rounding function with node-set operands in EVERY storage order (all permutations of every subset of size 2-3) and with reverse-axis paths as operands; results compared by bit pattern (NaN==NaN; sign of zero ignored for round) with Go float64 / math.Mod; non-trivial = distinct (operation, result)", len(c06Numbers))
 	r := &vrunner{c: c, kind: "C06", judge: c06Judge}
 	if run.Open("C06-round-negative-tie") {
 		r.known = func(e refExpr, vals []VarSpec, got, want Outcome) string {
@@ -114,6 +115,54 @@ func C06(c *run.Check) {
 			}
 		}
 	})
+	// node-set operands in every storage order (reverse axes deliver nearest-first,
+	// callers may bind any order): number() of a node-set is that of its first node
+	// in DOCUMENT order
+	nsOps := mustParse([]string{"$x + 1", "1 - $x", "$x * 2", "$x div 2", "2 div $x", "$x mod 7", "7 mod $x", "-$x", "floor($x)", "ceiling($x)", "round($x)", "number($x)", "$x + $x", "$x * $x", "sum($x) - $x"})
+	var perms []VarSpec
+	for _, v := range sets {
+		if v.Type != "node-set" || len(v.Nodes) < 2 {
+			continue
+		}
+		permute(v.Nodes, func(p []string) {
+			perms = append(perms, setVar("x", append([]string{}, p...)...))
+		})
+	}
+	run.ParallelW(len(perms), func(w, i int) {
+		if !triage && c.Violations() > 0 {
+			return
+		}
+		if workers[w] == nil {
+			workers[w] = newVWorker(d)
+		}
+		for _, e := range nsOps {
+			c.Evaluations.Add(1)
+			if r.one(workers[w], "/", e, []VarSpec{perms[i]}) {
+				c.Distinct(e.Text + fmt.Sprint(perms[i].Nodes))
+			}
+		}
+	})
+	c.Set("permuted_node_set_operands", len(perms))
+	revPaths := []string{"/r/e[4]/preceding-sibling::e", "/r/e[last()]/preceding-sibling::*", "/r/e[3]/text()/preceding::text()", "/r/e[2]/text()/ancestor::*", "/r/e[5]/ancestor-or-self::*", "/r/e[6]/preceding::e", "(/r/e[4]/preceding-sibling::e)", "/r/e[4]/preceding-sibling::e[. > 0]", "/r/e[7]/following-sibling::e"}
+	var revE []string
+	for _, pth := range revPaths {
+		for _, t := range []string{"%s + 1", "1 - %s", "%s * 2", "%s div 4", "%s mod 7", "-%s", "floor(%s)", "ceiling(%s)", "round(%s)", "%s + %s"} {
+			if strings.Count(t, "%s") == 2 {
+				revE = append(revE, fmt.Sprintf(t, pth, pth))
+			} else {
+				revE = append(revE, fmt.Sprintf(t, pth))
+			}
+		}
+	}
+	for _, e := range mustParse(revE) {
+		c.Evaluations.Add(1)
+		if workers[0] == nil {
+			workers[0] = newVWorker(d)
+		}
+		if r.one(workers[0], "/", e, nil) {
+			c.Distinct(e.Text)
+		}
+	}
 	// literals and path spellings
 	lits := mustParse([]string{"sum(/r/e)", "sum(/r/e[position()<=4])", "sum(/r/e[2])", "count(/r/e)", "sum(/r/none)", "7 mod 2", "-7 mod 2", "7 mod -2", "5.5 mod 2", "5 mod 0.3", "1 mod 0.5",
 		"0.5 mod 1", "round(0.5)", "round(2.5)", "round(-0.5)", "round(-0.2)", "round(0.49999999999999994)", "floor(-0.5)", "ceiling(-0.5)", "1 div 0", "-1 div 0", "0 div 0", "1 div -0", "-0 div 1",
